@@ -26,5 +26,24 @@ RowsWellFormed == \A j \in 1..Len(Table) : Table[j].lo <= Table[j].hi /\ Table[j
 SameSet == Norm = Runs
 \* the binary search is only correct on a sorted table of disjoint rows: stated separately so that a
 \* disagreement can be attributed
+(* The LEXER's view: for every code point c the harness tokenises "a" c "a" and records whether the first token is a name that
+   covers c.  That set must be: the table, plus the four characters that may continue a name ( . * / % - ZnLex!IdCont), minus
+   the eight keywords of ONE character (the entries of length 1 of ZnLex!KW: 令 为 以 其 或 且 之 的), which end a name.
+   Whatever lookup structure the lexer uses for it (binary search, a cache, a bitmap), it is the same set. *)
+LexRuns == ndJsonDeserialize("idlexruns.ndjson")
+Cont == {46, 42, 47, 37}
+OneGlyphKw == {20196, 20026, 20197, 20854, 25110, 19988, 20043, 30340}
+InRuns(R, c) == \E j \in 1..Len(R) : R[j].lo <= c /\ c <= R[j].hi
+AddPoint(R, c) == IF InRuns(R, c) THEN R ELSE Merge(<<>>, SortSeq(Append(R, [lo |-> c, hi |-> c]), LAMBDA a, b : a.lo < b.lo))
+RECURSIVE RemovePoint(_, _)
+RemovePoint(R, c) == IF R = <<>> THEN <<>>
+                     ELSE LET r == R[1] IN
+                          IF c < r.lo \/ c > r.hi THEN <<r>> \o RemovePoint(Tail(R), c)
+                          ELSE (IF r.lo <= c - 1 THEN << [lo |-> r.lo, hi |-> c - 1] >> ELSE <<>>)
+                               \o (IF c + 1 <= r.hi THEN << [lo |-> c + 1, hi |-> r.hi] >> ELSE <<>>) \o Tail(R)
+RECURSIVE FoldPts(_, _, _)
+FoldPts(Op(_, _), R, S) == IF S = {} THEN R ELSE LET c == CHOOSE x \in S : TRUE IN FoldPts(Op, Op(R, c), S \ {c})
+LexExpected == FoldPts(RemovePoint, FoldPts(AddPoint, Norm, Cont), OneGlyphKw)
+LexAgrees == LexExpected = LexRuns
 TableSortedDisjoint == \A j \in 1..Len(Table) - 1 : Table[j].hi < Table[j + 1].lo
 =============================================================================
